@@ -50,6 +50,25 @@ async def rec_wait(futs, timeout=None):
     return (set(), set(futs))
 
 
+async def rec_wait_for(fut, timeout=None):
+    """asyncio.wait_for CANCELS what it waits for when the timeout expires -- fatal for a future that other sleepers share"""
+    Waits.calls.append(([fut], timeout))
+    Waits.cancelled_shared_future = True
+    raise asyncio.TimeoutError()
+
+
+# the two timing tables as published (seconds / counts), written out: "the complete active or idle table" means THESE values,
+# not whatever a freshly constructed table object happens to carry
+ACTIVE_TABLE = {"DISCOVERY_INITIAL_TIMEOUT_IN_SECONDS": 4, "DISCOVERY_TIMEOUT_IN_SECONDS": 10, "TASK_TIDY_FREQUENCY_IN_SECONDS": 5,
+                "PING_FREQUENCY_IN_SECONDS": 2, "PING_DEVICE_NOT_RESPONDING_TIMEOUT_IN_SECONDS": 10, "FACADE_UPDATE_FREQUENCY_IN_SECONDS": 30,
+                "SPA_PACK_REFRESH_FREQUENCY_IN_SECONDS": 30, "PROTOCOL_TIMEOUT_IN_SECONDS": 4, "PROTOCOL_RETRY_COUNT": 10,
+                "PAUSE_BETWEEN_RETRIES_IN_SECONDS": 2}
+IDLE_TABLE = {"DISCOVERY_INITIAL_TIMEOUT_IN_SECONDS": 4, "DISCOVERY_TIMEOUT_IN_SECONDS": 10, "TASK_TIDY_FREQUENCY_IN_SECONDS": 60,
+              "PING_FREQUENCY_IN_SECONDS": 60, "PING_DEVICE_NOT_RESPONDING_TIMEOUT_IN_SECONDS": 120, "FACADE_UPDATE_FREQUENCY_IN_SECONDS": 120,
+              "SPA_PACK_REFRESH_FREQUENCY_IN_SECONDS": 120, "PROTOCOL_TIMEOUT_IN_SECONDS": 4, "PROTOCOL_RETRY_COUNT": 10,
+              "PAUSE_BETWEEN_RETRIES_IN_SECONDS": 2}
+
+
 def setting_names(cls):
     return [n for n in dir(cls) if n.isupper() and not n.startswith("_")]
 
@@ -67,8 +86,11 @@ def switch_installs_the_complete_table(active: bool, was_done: bool, stale: int)
     config.ConfigChange = fut
     set_config_mode(active)
     src = _GeckoActiveConfig if active else _GeckoIdleConfig
+    lit = ACTIVE_TABLE if active else IDLE_TABLE
+    ensures("published-table-names-every-setting", sorted(lit) == sorted(names))
     for n in names:
         ensures("setting-installed:" + n, getattr(config.GeckoConfig, n) == getattr(src, n))
+        ensures("setting-has-its-published-value:" + n, getattr(config.GeckoConfig, n) == lit[n])
     ensures("current-wakeup-future-resolved", both(config.ConfigChange is fut, fut.done()))
     ensures("resolved-at-most-once", len(fut.results) == (0 if was_done else 1))
     cover("switch-while-future-already-done", was_done)
@@ -81,6 +103,8 @@ async def sleeper_waits_on_the_current_future(delay: int, state: int):
     loop = Loop()
     asyncio.get_running_loop = lambda: loop
     asyncio.wait = rec_wait
+    asyncio.wait_for = rec_wait_for
+    Waits.cancelled_shared_future = False
     Waits.calls = []
     old = None if state == 0 else Fut(state == 2)
     config.ConfigChange = old
@@ -90,6 +114,7 @@ async def sleeper_waits_on_the_current_future(delay: int, state: int):
     (futs, timeout) = Waits.calls[0]
     ensures("waits-on-the-current-future-only", both(len(futs) == 1, futs[0] is cur))
     ensures("never-asks-to-sleep-longer-than-requested", timeout == delay)
+    ensures("a-sleeper-timing-out-never-cancels-the-future-the-others-wait-on", not Waits.cancelled_shared_future)
     ensures("the-awaited-future-is-pending-when-the-wait-starts", both(cur is not None, not cur.done()))
     if state == 1:
         ensures("pending-future-is-never-abandoned", both(cur is old, len(loop.created) == 0))
